@@ -144,7 +144,7 @@ func pktTars(c *hx.Ctx) []byte {
 	if r.Chance(45) {
 		w.int(1, int64(r.Pick([]int{1, 1, 3})))
 		w.int(2, int64(r.Intn(2)))
-		w.int(3, int64(r.Pick([]int{0, 1, 2})))                         // iMessageType
+		w.int(3, int64(r.Pick([]int{0, 1, 2})))                       // iMessageType
 		w.int(4, int64(r.Pick([]int{0, 5, 200, 40000, 1 << 20, -7}))) // iRequestId
 		w.str(5, "App.Srv.Obj"+strconv.Itoa(r.Intn(50)))
 		w.str(6, "fn"+strconv.Itoa(r.Intn(50)))
